@@ -186,10 +186,23 @@ def degenerate_recipe(draw, long_sizes):
         if ret != "N":
             items.append(["int", 7] if ret == "U" else ["bytes", "07"])
         routines.append({"name": "d%d" % i, "kind": "sub", "params": [], "ret": ret, "locals": {}, "body": ["seq", items] if g.chance(8) else (items[0] if len(items) == 1 else ["seq", items])})
-    kind = g.i(0, 9)
+    kind = g.i(0, 11)
     if kind == 0:
         nlong = g.pick(long_sizes)
         items = [["pop", ["int", j % 7]] for j in range(nlong)]
+    elif kind == 1:
+        # slot-limit shape: r explicitly numbered + a automatically numbered variables, all live at once
+        r = g.pick([0, 1, 1, 2, 16])
+        total = g.pick([250, 254, 255, 256, 256, 257, 258])
+        ids = draw(st.lists(st.integers(0, 255), min_size=r, max_size=r, unique=True))
+        items = []
+        g.vars.clear()
+        for j in range(total):
+            name = "m%d" % j
+            g.vars[name] = {"t": "U", "slot": ids[j] if j < r else None}
+            items.append(["store", name, ["int", j % 5]])
+        items.append(["pop", ["load", "m%d" % g.i(0, total - 1)]])
+        nr, routines = 0, []
     else:
         items = [_dstmt(g, 0, False, False, None) for _ in range(g.i(1, 4))]
     for i, r in enumerate(routines):
